@@ -340,6 +340,68 @@ Example import_only_inserts_csv_example :
           Some ([s_of "name"; s_of "ID"], [LStr (s_of "NULL"); LStr (s_of "''")])].
 Proof. cbn zeta. split; [repeat constructor|]. eexists. split; vm_compute; reflexivity. Qed.
 
+(** the positive end-to-end statement: what the CLI's writer writes for a rectangular table of safe cells
+    under validated column names, the CLI's importer turns into one INSERT per row carrying exactly the
+    row's cells as string literals *)
+Lemma ident_no_forbidden k : is_ident k = true -> existsb forbidden_char k = false.
+Proof.
+  intros H. pose proof (is_ident_chars k H) as Hk. apply not_true_iff_false. intros Hex.
+  apply existsb_exists in Hex. destruct Hex as (c & Hin & Hc). rewrite forallb_forall in Hk.
+  specialize (Hk c Hin). apply is_ident_char_iff in Hk.
+  unfold forbidden_char in Hc. rewrite !orb_true_iff, !Z.eqb_eq in Hc. unfold SQ, DQ in Hc. lia.
+Qed.
+
+Lemma validate_columns_complete sch cols : Forall (fun s => is_ident s = true) sch ->
+  Forall (fun c => exists sc, In sc sch /\ eq_ignore_case sc c = true) cols ->
+  validate_columns sch cols = Ok tt.
+Proof.
+  intros Hsch. induction 1 as [|c cols Hc _ IH]; [reflexivity|].
+  cbn [validate_columns]. rewrite (ident_no_forbidden c (validated_ident sch c Hsch Hc)).
+  replace (existsb (fun sc => eq_ignore_case sc c) sch) with true; [exact IH|].
+  symmetry. apply existsb_exists. exact Hc.
+Qed.
+
+Theorem csv_export_import_thm : forall (sch header : list str) (rows : list (list str)) (table : str),
+  header <> [] ->
+  Forall (fun f => csv_safe f = true) header ->
+  Forall (safe_row (length header)) rows ->
+  Forall (fun s => is_ident s = true) sch ->
+  Forall (fun h => exists sc, In sc sch /\ eq_ignore_case sc h = true) header ->
+  exists stmts,
+    copy_import_csv (Some sch) (export_csv header rows) table = Ok stmts
+    /\ Forall2 (fun st row => scan_insert table st = Some (header, map LStr row)) stmts rows.
+Proof.
+  intros sch header rows table Hne Hh Hrows Hsch Hval.
+  assert (Htrim : map trim header = header) by (apply map_trim_safe; exact Hh).
+  assert (V : validate_csv_columns sch (export_csv header rows) = Ok tt).
+  { unfold validate_csv_columns. rewrite lines_export_csv by assumption. cbn [map].
+    rewrite split_on_join by (try exact Hne; apply safe_forall with (2 := Hh); intros f Hf; apply csv_safe_inv in Hf; tauto).
+    rewrite Htrim. apply validate_columns_complete; assumption. }
+  assert (I : import_csv (export_csv header rows) table = Ok (map (csv_stmt table header) rows)).
+  { unfold import_csv. rewrite csv_code_roundtrip_thm by assumption. reflexivity. }
+  exists (map (csv_stmt table header) rows). split.
+  - unfold copy_import_csv. rewrite V. exact I.
+  - assert (C : copy_import_csv (Some sch) (export_csv header rows) table = Ok (map (csv_stmt table header) rows))
+      by (unfold copy_import_csv; rewrite V; exact I).
+    destruct (import_only_inserts_csv_thm sch _ table _ Hsch C) as (hdr & rows' & R & _ & F).
+    rewrite csv_code_roundtrip_thm in R by assumption. inversion R; subst hdr rows'.
+    rewrite Htrim in F. exact F.
+Qed.
+
+Example csv_export_import_example :
+  let sch := [s_of "ID"; s_of "NAME"] in
+  let header := [s_of "id"; s_of "name"] in
+  let rows := [[s_of "1"; s_of "O'Brien; DROP TABLE t; --"]; [[]; s_of "NULL"]] in
+  header <> [] /\ Forall (fun f => csv_safe f = true) header /\ Forall (safe_row (length header)) rows
+  /\ Forall (fun s => is_ident s = true) sch
+  /\ Forall (fun h => exists sc, In sc sch /\ eq_ignore_case sc h = true) header.
+Proof.
+  cbn zeta. split; [discriminate|]. split; [repeat constructor|]. split; [repeat constructor|].
+  split; [repeat constructor|].
+  constructor; [exists (s_of "ID"); split; [left; reflexivity | reflexivity]|].
+  constructor; [exists (s_of "NAME"); split; [right; left; reflexivity | reflexivity]|]. constructor.
+Qed.
+
 (** ------------------------------------------------------------------------------------------------
     JSON import *)
 
